@@ -269,6 +269,33 @@ type pxState struct {
 	objs   *int
 }
 
+// mapTouched: the path has already updated (or handed to an opaque callee) the map m.
+func (s *pxState) mapTouched(m *T) bool {
+	ms := m.String()
+	for _, e := range s.events {
+		if e.Kind == "mapupdate" && e.Recv != nil && e.Recv.String() == ms {
+			return true
+		}
+		if e.Kind == "call" || e.Kind == "invoke" {
+			// an opaque callee may have changed it if it was handed anything rooted where m is
+			root := ms
+			if i := strings.IndexAny(root, ".[("); i > 0 {
+				root = root[:i]
+			}
+			ts := append([]*T{e.Recv}, e.Args...)
+			for _, a := range ts {
+				if a != nil && strings.Contains(a.String(), root) {
+					return true
+				}
+			}
+			if e.Kind == "invoke" {
+				return true
+			}
+		}
+	}
+	return false
+}
+
 func (s *pxState) emit(e Ev) {
 	e.NF = len(s.order)
 	s.events = append(s.events, e)
@@ -703,6 +730,18 @@ func (r *pxRun) eval(st *pxState, fr *pxFrame, v ssa.Value) *T {
 				return v
 			}
 		}
+		// m[k] where k is the key the enclosing range over the same (unmodified, non-local) map yielded:
+		// that is the range's own value
+		if k.Op == "extract" && k.Aux == "1" && len(k.A) == 1 && k.A[0].Op == "next" && len(k.A[0].A) == 1 && k.A[0].A[0].Op == "range" &&
+			len(k.A[0].A[0].A) == 1 && k.A[0].A[0].A[0].String() == m.String() && !st.mapTouched(m) {
+			if tt, ok := k.A[0].Typ.(*types.Tuple); ok && tt.Len() == 3 {
+				v := &T{Op: "extract", A: []*T{k.A[0]}, Aux: "2", Typ: tt.At(2).Type()}
+				if x.CommaOk {
+					return &T{Op: "tuple", A: []*T{v, cBool(true)}, Typ: x.Type()}
+				}
+				return v
+			}
+		}
 		val := &T{Op: "lookup", A: []*T{m, k}, Typ: x.Type()}
 		if x.CommaOk {
 			tt := x.Type().(*types.Tuple)
@@ -1114,6 +1153,28 @@ func (r *pxRun) store(st *pxState, fr *pxFrame, a, v *T, in ssa.Instruction) {
 		for key := range st.mem {
 			if strings.HasPrefix(key, k+".") || strings.HasPrefix(key, k+"[") {
 				delete(st.mem, key)
+			}
+		}
+		// a field of an object that is held as one whole struct value: update that value
+		if i := strings.LastIndex(k, "."); i > 0 && !strings.Contains(k[i:], "[") {
+			if whole, ok := st.mem[k[:i]]; ok && whole.Op != "struct" && whole.Typ != nil {
+				// a symbolic struct value: open it up into its fields
+				if stt, isS := whole.Typ.Underlying().(*types.Struct); isS {
+					ex := &T{Op: "struct", Fields: map[string]*T{}, Typ: whole.Typ, Aux: typeName(whole.Typ)}
+					for j := 0; j < stt.NumFields(); j++ {
+						ex.Fields[stt.Field(j).Name()] = fieldOfTerm(whole, stt.Field(j).Name(), stt.Field(j).Type())
+					}
+					st.mem[k[:i]] = ex
+				}
+			}
+			if whole, ok := st.mem[k[:i]]; ok && whole.Op == "struct" {
+				nw := &T{Op: "struct", Fields: map[string]*T{}, Typ: whole.Typ, Aux: whole.Aux}
+				for fk, fv := range whole.Fields {
+					nw.Fields[fk] = fv
+				}
+				nw.Fields[k[i+1:]] = v
+				st.mem[k[:i]] = nw
+				return
 			}
 		}
 		st.mem[k] = v
